@@ -607,7 +607,30 @@ SyncOutcome(n, x, o) ==
         crossVals == lostNow \/ \A e \in DOMAIN valsNew : e \in DOMAIN evals => evals[e] = valsNew[e]
         crossRR == lostNow \/ \A e \in DOMAIN rrNew : \A m \in (DOMAIN rrv) \ lost1 : (m # n /\ e \in DOMAIN rrv[m] /\ rrv[m][e] # 0) => rrv[m][e] = rrNew[e]
         crossFame == lostNow \/ \A e \in DOMAIN fameNew : e \in DOMAIN fames => fames[e] = fameNew[e]
-        V == Checks("C01", "Inv_C01_Agreement", o.blocks = << >> \/ Inv_C01_Agreement(dlv1, lost1, n, from))
+        evalsAll == valsNew @@ evals
+        \* known finding C13/straggler: every disagreement of this step is between a node that
+        \* fast-forwarded and another one, concerns the frame hash only (and the digest that
+        \* includes it), in a block that holds an event of a round at or below the reset round
+        SameButFrameHash(x1, x2) ==
+            << x1.idx, x1.rr, x1.txs, x1.itxs, x1.rcpt, x1.ph, x1.ts, x1.big, x1.sh >> =
+            << x2.idx, x2.rr, x2.txs, x2.itxs, x2.rcpt, x2.ph, x2.ts, x2.big, x2.sh >>
+        stragglerOnly ==
+            \A b \in (DOMAIN dlv1) \ (lost1 \cup {n}) : \A i \in from..Len(dlv1[n]) :
+                LET ob == BlockAt(dlv1[b], dlv1[n][i].idx) IN
+                ob = << >> \/ BodyFields(ob[1]) = BodyFields(dlv1[n][i]) \/
+                ( /\ SameButFrameHash(ob[1], dlv1[n][i])
+                  /\ \E m \in {n, b} : base[m].idx >= 0 /\
+                        \* (in the block itself, or - later blocks - among the roots of its frame,
+                        \* which carry the event's round as well)
+                        \E e \in SeqToSet(dlv1[n][i].evs) \cup
+                                 UNION { SeqToSet(dlv1[n][i].roots[j].evs) : j \in 1..Len(dlv1[n][i].roots) } :
+                            e \in DOMAIN evalsAll /\ evalsAll[e][1] <= base[m].rr )
+        agreeOK == o.blocks = << >> \/ Inv_C01_Agreement(dlv1, lost1, n, from)
+        V == (IF agreeOK THEN {}
+              ELSE IF n \notin lost1 /\ stragglerOnly
+                   THEN { [ p |-> "C01", inv |-> "Inv_C01_Agreement", l |-> l, t |-> Line.t,
+                            d |-> "fast-forward/straggler-of-old-round-changes-frame-hash" ] }
+                   ELSE Checks("C01", "Inv_C01_Agreement", FALSE))
              \cup Checks("C02", "Inv_C02_Consecutive", o.blocks = << >> \/ Inv_C02_Consecutive(dlv1[n], from, base[n].idx))
              \cup Checks("C02", "Inv_C02_StoreKeepsDelivered", ~hasStore \/ Inv_C02_StoreKeepsDelivered(dlv1[n], sto1[n]))
              \cup Checks("C02", "Inv_C02_SigsOnlyGrow", ~hasStore \/ Inv_C02_SigsOnlyGrow(sto1[n], psto1[n]))
